@@ -22,7 +22,7 @@ include!("src/buildlist.rs");
 
 fn main() {
     println!("cargo::rerun-if-changed=build.rs");
-    println!("cargo::rerun-if-changed=flows/src/progs.rs");
+    println!("cargo::rerun-if-changed=../flows/src/progs.rs");
     println!("cargo::rerun-if-changed=src/buildlist.rs");
     let out_dir = std::env::var("OUT_DIR").unwrap();
     generate_all(&out_dir);
